@@ -53,6 +53,20 @@ def _split_cond(e, pol):
         if pol:
             return [[('pat', e['pat'], e['init'], True)]]
         return [[('nopat', [e['pat']], e['init'])]]
+    if k == 'Match' and e['arms'] and all(hir.lit_bool(hir.strip(a['body'])) is not None and not a.get('guard') for a in e['arms']):
+        # matches!(x, P | Q)  ==  match x { P | Q => true, _ => false }
+        alts = []
+        prev = []
+        for a in e['arms']:
+            if hir.lit_bool(hir.strip(a['body'])) == pol:
+                item = []
+                if prev:
+                    item.append(('nopat', list(prev), e['scrut']))
+                if a['pat'].get('k') != 'Wild':
+                    item.append(('pat', a['pat'], e['scrut'], True))
+                alts.append(item)
+            prev.append(a['pat'])
+        return alts
     b = hir.lit_bool(e)
     if b is not None:
         return [[]] if b == pol else []
